@@ -297,6 +297,7 @@ class SimReactor(object):
     self.escaped_errors = []
     self.call_errors = 0
     self.thread_joiner = None    # callable: block until pool threads exit
+    self.shutdown_gaps = False   # plan knob: stalls between shutdown triggers
     self._pool_trigger = False
     # a real reactor registers crash() and disconnectAll() as 'during shutdown'
     # triggers when it is constructed, i.e. ahead of anything the application adds
@@ -417,7 +418,26 @@ class SimReactor(object):
   # ---- IReactorCore ----------------------------------------------------------------
   def addSystemEventTrigger(self, phase, ev, f, *a, **kw):
     self.triggers.setdefault(ev, _ThreePhaseEvent())
+    if ev == 'shutdown':
+      real = f
+
+      def f(*a2, **kw2):
+        self.trigger_gap()
+        return real(*a2, **kw2)
     return (ev, self.triggers[ev].addTrigger(phase, f, *a, **kw))
+
+  def trigger_gap(self):
+    """Between two shutdown triggers the reactor thread may be descheduled for as long as it
+    takes another simulated thread to come out of its sleep (worlds with a thread scheduler,
+    plans that ask for it): the other thread then runs in the middle of the shutdown sequence."""
+    sched = self.clock
+    if not self.shutdown_gaps or not hasattr(sched, 'th') or self.ctx is None or sched.cur != 'R':
+      return
+    wakes = [t.wake for n, t in sched.th.items() if n != 'R' and t.alive and t.wake is not None]
+    if not wakes or self.ctx.ch.pick('trgap', 2) != 1:
+      return
+    self.ctx.fault('reactor_descheduled_between_shutdown_triggers')
+    sched.sleep_until(min(wakes))
 
   def removeSystemEventTrigger(self, tid):
     ev, handle = tid
